@@ -41,8 +41,8 @@ ASSUMPTIONS = [
     "kernel randomness observed by reassigning genjax.inference.mcmc.uniform/normal to probe distributions",
 ]
 FLOORS = {
-    "quick": {"mh_steps": 60, "mala_steps": 20, "hmc_steps": 20, "accept_brackets": 150, "reject_bit_equal": 20, "db_instances": 6, "vector_leaf_moves": 8},
-    "thorough": {"mh_steps": 700, "mala_steps": 300, "hmc_steps": 300, "accept_brackets": 2000, "reject_bit_equal": 500, "db_instances": 60, "vector_leaf_moves": 80},
+    "quick": {"mh_steps": 60, "mala_steps": 20, "hmc_steps": 20, "accept_brackets": 150, "reject_bit_equal": 20, "db_instances": 6, "vector_leaf_moves": 8, "support_exit_confirmed_by_reference": 8},
+    "thorough": {"mh_steps": 700, "mala_steps": 300, "hmc_steps": 300, "accept_brackets": 2000, "reject_bit_equal": 500, "db_instances": 60, "vector_leaf_moves": 80, "support_exit_confirmed_by_reference": 30},
 }
 TIMEOUT_S = {"quick": 1800, "thorough": 7200}
 N_CASES = {"quick": 56, "thorough": 500}
@@ -61,6 +61,11 @@ def plan(tier, seed):
         cases.append({"kind": kind, "family": fam, "gseed": [seed, 9, i]})
     for j in range(6 if tier == "quick" else 24):
         cases.append({"kind": "mixture", "gseed": [seed, 909, j]})
+    # gradient kernels on latents with bounded support: a proposal that leaves the support has target density 0,
+    # so it is rejected and the input comes back unchanged
+    for j, dist in enumerate(SUPPORT_DISTS):
+        for r in range(1 if tier == "quick" else 4):
+            cases.append({"kind": "support", "dist": dist, "gseed": [seed, 90909, j, r]})
     return cases
 
 
@@ -182,9 +187,98 @@ def _bracket(ctx, stepper, key, host_seed, tr0, trA, log_alpha_ref, tol_w, d, kn
     return ok
 
 
+SUPPORT_DISTS = ["exponential", "gamma", "beta", "uniform", "half_normal", "log_normal", "inverse_gamma"]
+
+
+def _run_support(case, ctx):
+    import jax
+    import jax.numpy as jnp
+    import genjax
+    import scipy.stats as st
+    from genjax import gen, sel, seed
+    from genjax.inference import hmc, mala
+
+    from lib import gfi, probes
+
+    rng = np.random.default_rng(case["gseed"])
+    ctx.evaluation()
+    name = case["dist"]
+    dist = getattr(genjax.distributions, name)
+    # parameters (as genjax documents them), support and float64 reference log density
+    a, b = round(float(rng.uniform(1.5, 3.0)), 3), round(float(rng.uniform(0.8, 2.0)), 3)
+    cfg = {
+        "exponential": ((b,), (0.0, np.inf), lambda x: st.expon(scale=1 / b).logpdf(x)),
+        "gamma": ((a, b), (0.0, np.inf), lambda x: st.gamma(a, scale=1 / b).logpdf(x)),
+        "beta": ((a, b + 1), (0.0, 1.0), lambda x: st.beta(a, b + 1).logpdf(x)),
+        "uniform": ((0.0, b), (0.0, b), lambda x: st.uniform(0, b).logpdf(x)),
+        "half_normal": ((b,), (0.0, np.inf), lambda x: st.halfnorm(scale=b).logpdf(x)),
+        "log_normal": ((0.1, b / 2), (0.0, np.inf), lambda x: st.lognorm(s=b / 2, scale=np.exp(0.1)).logpdf(x)),
+        "inverse_gamma": ((a, b), (0.0, np.inf), lambda x: st.invgamma(a, scale=b).logpdf(x)),
+    }[name]
+    params, (lo, hi), ref_lp = cfg
+    sig = 0.7
+    yobs = float(np.round(rng.normal(0.5, 0.5), 3))
+
+    @gen
+    def model():
+        s = dist(*params) @ "s"
+        genjax.normal(s, sig) @ "y"
+        return s
+
+    s0 = float(np.float32(min(0.3, 0.4 * (hi if np.isfinite(hi) else 1.0))))
+    tr0, _ = jax.jit(seed(model.generate))(jax.random.key(0), {"s": jnp.float32(s0), "y": jnp.float32(yobs)})  # jit: all leaves float32 arrays
+    base = {"family": "bounded-support", "model": f"s ~ {name}{params}; y ~ normal(s, {sig})", "observed": {"y": yobs}, "s0": s0}
+    if not np.isfinite(float(tr0.get_score())):
+        raise AssertionError("harness: start state outside the support")
+
+    def logpost(x):
+        return float(ref_lp(x)) - 0.5 * ((yobs - x) / sig) ** 2
+
+    for kname in ("mala", "hmc"):
+        for eps, z in ((0.5, -3.0), (0.9, -2.5), (0.5, 3.5)):
+            if kname == "mala":
+                stepper = Stepper(lambda t, _e=eps: mala(t, sel("s"), _e))
+            else:
+                stepper = Stepper(lambda t, _e=eps: hmc(t, sel("s"), _e, 2))
+            d = {**base, "kernel": kname, "step_size": eps, "scripted_noise": z}
+            probes.HOST.reset("observe", 0, cont_values={TAG_U: [1e-30], TAG_N: [z]})
+            res = ctx.call(stepper.fn, jax.random.key(int(rng.integers(2**31))), tr0)
+            ctx.count("support_exit_probes")
+            if hasattr(res, "brief"):
+                ctx.violation(gfi.raise_key(kname, res), {**d, **res.brief()})
+                continue
+            trA, stt = res
+            acc = bool(np.asarray(stt.get("accept", False)))
+            s_new = float(np.asarray(trA.get_choices()["s"]))
+            # float64 reference of the MALA proposal (central differences inside the support)
+            outside_ref = None
+            if kname == "mala":
+                h = 1e-5
+                g = (logpost(s0 + h) - logpost(s0 - h)) / (2 * h)
+                prop = s0 + 0.5 * eps * eps * g + eps * z
+                outside_ref = bool(prop <= lo or prop >= hi)
+                if outside_ref:
+                    ctx.count("support_exit_confirmed_by_reference")
+            if acc:
+                inside = lo < s_new < hi and np.isfinite(float(trA.get_score()))
+                if not inside:
+                    ctx.violation(f"{kname}|bounded-support|accepted-state-outside-support",
+                                  {**d, "distribution": name, "support": [lo, hi], "accepted_value": s_new, "score": gfi.fnum(trA.get_score()),
+                                   "genjax_logpdf_at_accepted_value": gfi.fnum(dist.logpdf(jnp.float32(s_new), *params))})
+                elif outside_ref:
+                    ctx.violation(f"{kname}|bounded-support|accepted-although-reference-proposal-leaves-support", {**d, "accepted_value": s_new})
+            else:
+                ctx.count("support_exit_rejected")
+                if not _tree_bit_equal(trA, tr0):
+                    ctx.violation(f"{kname}|bounded-support|rejected-move-changed-the-trace", {**d, "value": s_new})
+    ctx.distinct("nontrivial", ["support", name])
+
+
 def run_case(case, ctx):
     if case["kind"] == "mixture":
         return _run_mixture(case, ctx)
+    if case["kind"] == "support":
+        return _run_support(case, ctx)
     if case["kind"] == "db":
         return _run_db_generated(case, ctx)
     return _run_generated(case, ctx)
